@@ -3179,4 +3179,210 @@ theorem srcKeys_star (imp : String) (tabs : List DObj) (h : tabs.length ≠ 1) :
 theorem starKey_table (s n : String) : starKey (.table s n) = .col (s ++ "." ++ n ++ "." ++ "*") (some (.table s n)) := rfl
 
 
+/-! ## 9. set operations: the first branch names the columns, the other branches are wired BY POSITION -/
+
+theorem nodes_addLin_mono (g : LGraph) (src tgt : Column) (tp : DS × String) (m : Node) (hm : m ∈ g.nodes) :
+    m ∈ (addLin g src tgt tp).nodes := by
+  unfold addLin
+  cases src.parent? with
+  | none =>
+    simp only [mem_nodes_addEdge]
+    exact Or.inl (Or.inl hm)
+  | some sp =>
+    simp only [mem_nodes_addEdge]
+    exact Or.inl (Or.inl (Or.inl hm))
+
+/-- the inner loop keeps key objects and edge indices -/
+theorem inner_keeps (tgt : Column) (tp : DS × String) (htp : tgt.parent? = some tp) :
+    ∀ (srcs : List Column) (g g' : LGraph), srcs.foldlM (fun g s => addColumnLineage g s tgt) g = .ok g' →
+      (∀ m ∈ g.nodes, m ∈ g'.nodes ∧ g'.payload m = g.payload m) ∧ (∀ a b, g'.idx a b = g.idx a b)
+  | [], g, g', h => by
+    simp only [List.foldlM_nil, pure, Except.pure] at h
+    cases h
+    exact ⟨fun m hm => ⟨hm, rfl⟩, fun _ _ => rfl⟩
+  | s :: r, g, g', h => by
+    simp only [List.foldlM_cons, bind, Except.bind, addColumnLineage_eq g s tgt tp htp] at h
+    obtain ⟨h1, h2⟩ := inner_keeps tgt tp htp r _ g' h
+    refine ⟨fun m hm => ?_, fun a b => ?_⟩
+    · obtain ⟨hn, hp⟩ := h1 m (nodes_addLin_mono g s tgt tp m hm)
+      exact ⟨hn, by rw [hp, payload_addLin_of_mem g s tgt tp m hm]⟩
+    · rw [h2, idx_addLin]
+
+/-- the first time a target column is wired: it becomes the LAST column of the target and its key object is the column -/
+theorem inner_new (tgt : Column) (tp : DS × String) (htp : tgt.parent? = some tp) (T : DS) (hT : tp.1 = T) :
+    ∀ (srcs : List Column) (g g' : LGraph), srcs ≠ [] → tgt.key ∉ g.outEdges (.ds T) → tgt.key ∉ g.nodes →
+      (∀ s ∈ srcs, s.key ≠ tgt.key ∧ ∀ sp, s.parent? = some sp → sp.1 ≠ T) →
+      srcs.foldlM (fun g s => addColumnLineage g s tgt) g = .ok g' →
+      g'.outEdges (.ds T) = g.outEdges (.ds T) ++ [tgt.key] ∧ g'.payload tgt.key = some (.col tgt)
+  | [], _, _, hne, _, _, _, _ => absurd rfl hne
+  | s :: r, g, g', _, hout, hnode, hs, h => by
+    simp only [List.foldlM_cons, bind, Except.bind, addColumnLineage_eq g s tgt tp htp] at h
+    have e := outT_addLin g s tgt tp T hT (hs s (by simp)).2
+    rw [if_neg hout] at e
+    have hin : tgt.key ∈ (addLin g s tgt tp).outEdges (.ds T) := by rw [e]; simp
+    have hrest := (outT_inner tgt tp htp T hT r _ g' (fun x hx => (hs x (by simp [hx])).2) h).1 hin
+    have hkeep := (inner_keeps tgt tp htp r _ g' h).1
+    -- the key object after the first step
+    have hpay : (addLin g s tgt tp).payload tgt.key = some (.col tgt) := by
+      have h0 : (g.addEdge s.key tgt.key .lineage none (some (.col s)) (some (.col tgt))).payload tgt.key = some (.col tgt) := by
+        rw [Graph.payload_addEdge, Graph.payload_addNode, if_neg, if_pos rfl]
+        rw [mem_nodes_addNode]
+        rintro (hx | hx)
+        · exact hnode hx
+        · exact (hs s (by simp)).1 hx.symm
+      have hn0 : tgt.key ∈ (g.addEdge s.key tgt.key .lineage none (some (.col s)) (some (.col tgt))).nodes :=
+        (mem_nodes_addEdge _ _ _ _ _ _ _ _).mpr (Or.inr (Or.inr rfl))
+      have hn1 : tgt.key ∈ ((g.addEdge s.key tgt.key .lineage none (some (.col s)) (some (.col tgt))).addEdge (.ds tp.1)
+          tgt.key .hasColumn none (some (.sub tp.2)) (some (.col tgt))).nodes :=
+        (mem_nodes_addEdge _ _ _ _ _ _ _ _).mpr (Or.inl hn0)
+      unfold addLin
+      cases s.parent? with
+      | none =>
+        simp only
+        rw [payload_addEdge_of_mem _ _ _ _ _ _ _ _ hn0]; exact h0
+      | some sp =>
+        simp only
+        rw [payload_addEdge_of_mem _ _ _ _ _ _ _ _ hn1, payload_addEdge_of_mem _ _ _ _ _ _ _ _ hn0]; exact h0
+    have hnode' : tgt.key ∈ (addLin g s tgt tp).nodes := mem_nodes_of_payload _ _ _ hpay
+    exact ⟨by rw [hrest, e], by rw [(hkeep _ hnode').2, hpay]⟩
+
+theorem pairwise_const_zero {α : Type} : ∀ (l : List α), ((l.map (fun _ => (0 : Nat))).Pairwise (· ≤ ·))
+  | [] => by simp
+  | _ :: r => by
+    simp only [List.map_cons, List.pairwise_cons, List.mem_map, forall_exists_index, and_imp]
+    exact ⟨fun a _ _ h => by omega, pairwise_const_zero r⟩
+
+/-- the loop over the select items of the FIRST group: every item has a source and the item names are pairwise
+    different, so the target ends up owning exactly the items' columns, in item order -/
+theorem cleanupFoldOwn_wc {g1 : LGraph} (imp : String) (s nm : String) (n : Nat) (tabs : List DObj) (k : Nat)
+    (KEYS : ColSpec → List Node) (hws : writeSet g1 = [.table s nm]) (hnr : DS.table s nm ∉ readSet g1)
+    (hg1 : ∀ m ∈ g1.nodes, m.isCol = false) :
+    ∀ (rest pre : List ColSpec) (g : LGraph) (K : List (Node × Node)), Wired g1 g K →
+      WC (.table s nm) (pre.map (fun c => Column.mk1 c.raw (some (DS.table s nm, s ++ "." ++ nm)))) g →
+      (∀ x, g.idx (.ds (.table s nm)) x = none) →
+      (∀ p ∈ K, colParent p.1 ≠ some (.table s nm) ∧
+        p.2 ∈ (pre.map (fun c => (Column.mk1 c.raw (some (DS.table s nm, s ++ "." ++ nm))).key))) →
+      pre.length + rest.length ≤ n →
+      ((pre ++ rest).map (fun c => (Column.mk1 c.raw (some (DS.table s nm, s ++ "." ++ nm))).key)).Nodup →
+      (∀ c ∈ rest, KEYS c ≠ [] ∧ ∀ g, Frame g1 g →
+        (∀ x, x ∈ (toSourceColumns imp (aliasMapping g tabs) c k).map (·.key) ↔ x ∈ KEYS c) ∧
+        (∀ y ∈ toSourceColumns imp (aliasMapping g tabs) c k,
+          colOK y ∧ ∀ sp, y.parent? = some sp → sp.1 ≠ .table s nm)) →
+      ∃ g', (rest.zipIdx pre.length).foldlM
+          (fun g ci => cleanupItem imp (.table s nm, printedDS g (.table s nm)) n tabs g ci k) g = .ok g' ∧
+        Wired g1 g' (K ++ keyPairs KEYS (.table s nm, s ++ "." ++ nm) rest) ∧
+        WC (.table s nm) ((pre ++ rest).map (fun c => Column.mk1 c.raw (some (DS.table s nm, s ++ "." ++ nm)))) g' ∧
+        (∀ x, g'.idx (.ds (.table s nm)) x = none)
+  | [], pre, g, K, h, hwc, hidx, _, _, _, _ => ⟨g, rfl, by simpa [keyPairs] using h, by simpa using hwc, hidx⟩
+  | c :: r, pre, g, K, h, hwc, hidx, hK, hn, hnd, hsrc => by
+    have hw : writeSet g = [.table s nm] := by unfold writeSet; rw [tagSet_eq_of_frame h.frame]; exact hws
+    have hrd : readSet g = readSet g1 := by unfold readSet; rw [tagSet_eq_of_frame h.frame]
+    have htt := targetTable_of g _ hw (by rw [hrd]; exact hnr)
+    obtain ⟨hne, hsrcc⟩ := hsrc c (by simp)
+    obtain ⟨hkeys, hys⟩ := hsrcc g h.frame
+    -- fewer write columns than items
+    have hlen : (writeColumns g).length < n := by
+      have h1 := length_writeColumns_le g _ htt
+      rw [hwc.out] at h1
+      simp only [List.length_map, List.length_cons] at h1 hn
+      omega
+    obtain ⟨g', hg', hfold, hw'⟩ := cleanupItem_wired imp (.table s nm) (s ++ "." ++ nm) n tabs c pre.length k _ h rfl
+      (fun y hy => (hys y hy).1) hlen rfl
+    -- the item's own column is new
+    have hndc : (Column.mk1 c.raw (some (DS.table s nm, s ++ "." ++ nm))).key ∉
+        pre.map (fun c => (Column.mk1 c.raw (some (DS.table s nm, s ++ "." ++ nm))).key) := by
+      rw [List.map_append, List.nodup_append] at hnd
+      intro hx
+      exact hnd.2.2 _ hx _ (by simp) rfl
+    have hsne : toSourceColumns imp (aliasMapping g tabs) c k ≠ [] := by
+      intro he
+      cases hK' : KEYS c with
+      | nil => exact hne hK'
+      | cons x xs =>
+        have := (hkeys x).mpr (by rw [hK']; simp)
+        rw [he] at this; cases this
+    have hout : (Column.mk1 c.raw (some (DS.table s nm, s ++ "." ++ nm))).key ∉ g.outEdges (.ds (.table s nm)) := by
+      rw [hwc.out, List.map_map]; exact hndc
+    have hnode : (Column.mk1 c.raw (some (DS.table s nm, s ++ "." ++ nm))).key ∉ g.nodes := by
+      intro hm
+      rcases h.cnodes _ rfl hm with h1 | ⟨p, hp, h1 | h1⟩
+      · have := hg1 _ h1; cases this
+      · have := (hK p hp).1
+        rw [← h1] at this
+        exact this rfl
+      · have := (hK p hp).2
+        rw [← h1] at this
+        exact hndc this
+    have hsk : ∀ y ∈ toSourceColumns imp (aliasMapping g tabs) c k,
+        y.key ≠ (Column.mk1 c.raw (some (DS.table s nm, s ++ "." ++ nm))).key ∧
+        ∀ sp, y.parent? = some sp → sp.1 ≠ .table s nm := by
+      intro y hy
+      refine ⟨?_, (hys y hy).2⟩
+      intro hk
+      have h1 : colParent y.key = some (.table s nm) := by rw [hk]; rfl
+      rw [colParent_key] at h1
+      cases hyp : y.parent? with
+      | none => rw [hyp] at h1; cases h1
+      | some sp =>
+        rw [hyp] at h1
+        simp only [Option.map_some, Option.some.injEq] at h1
+        exact (hys y hy).2 sp hyp h1
+    obtain ⟨hout', hpay'⟩ := inner_new (Column.mk1 c.raw (some (.table s nm, s ++ "." ++ nm))) (.table s nm, s ++ "." ++ nm)
+      rfl (.table s nm) rfl _ g g' hsne hout hnode hsk hfold
+    obtain ⟨hkeepN, hkeepI⟩ := inner_keeps (Column.mk1 c.raw (some (.table s nm, s ++ "." ++ nm))) (.table s nm, s ++ "." ++ nm)
+      rfl _ g g' hfold
+    have hidx' : ∀ x, g'.idx (.ds (.table s nm)) x = none := fun x => by rw [hkeepI]; exact hidx x
+    have hwc' : WC (.table s nm) ((pre ++ [c]).map (fun c => Column.mk1 c.raw (some (DS.table s nm, s ++ "." ++ nm)))) g' := by
+      refine ⟨?_, ?_, ?_⟩
+      · rw [hout', hwc.out]; simp
+      · simp only [hidx', Option.getD_none]
+        exact pairwise_const_zero _
+      · intro c' hc'
+        simp only [List.map_append, List.map_cons, List.map_nil, List.mem_append, List.mem_singleton] at hc'
+        rcases hc' with hc' | hc'
+        · have := hwc.pay c' hc'
+          rw [(hkeepN _ (mem_nodes_of_payload g _ _ this)).2]; exact this
+        · rw [hc']; exact hpay'
+    have hK' : ∀ p ∈ K ++ (toSourceColumns imp (aliasMapping g tabs) c k).map
+        (fun y => (y.key, (Column.mk1 c.raw (some (DS.table s nm, s ++ "." ++ nm))).key)),
+        colParent p.1 ≠ some (.table s nm) ∧
+        p.2 ∈ ((pre ++ [c]).map (fun c => (Column.mk1 c.raw (some (DS.table s nm, s ++ "." ++ nm))).key)) := by
+      intro p hp
+      rcases List.mem_append.mp hp with hp | hp
+      · exact ⟨(hK p hp).1, by simp only [List.map_append, List.mem_append]; exact Or.inl (hK p hp).2⟩
+      · obtain ⟨y, hy, rfl⟩ := List.mem_map.mp hp
+        refine ⟨?_, by simp⟩
+        simp only
+        rw [colParent_key]
+        intro hcp
+        cases hyp : y.parent? with
+        | none => rw [hyp] at hcp; cases hcp
+        | some sp =>
+          rw [hyp] at hcp
+          simp only [Option.map_some, Option.some.injEq] at hcp
+          exact (hys y hy).2 sp hyp hcp
+    obtain ⟨g'', hg'', hw'', hwc'', hidx''⟩ := cleanupFoldOwn_wc imp s nm n tabs k KEYS hws hnr hg1 r (pre ++ [c]) g' _ hw'
+      hwc' hidx' hK' (by simp only [List.length_append, List.length_cons, List.length_nil] at hn ⊢; omega)
+      (by simpa using hnd) (fun c' hc' => hsrc c' (by simp [hc']))
+    refine ⟨g'', ?_, hw''.congr ?_, by simpa using hwc'', hidx''⟩
+    · simp only [List.zipIdx_cons, List.foldlM_cons, bind, Except.bind]
+      have : cleanupItem imp (.table s nm, printedDS g (.table s nm)) n tabs g (c, pre.length) k = .ok g' := hg'
+      rw [this]
+      have hlen' : (pre ++ [c]).length = pre.length + 1 := by simp
+      rw [hlen'] at hg''
+      exact hg''
+    · intro x
+      simp only [keyPairs, List.flatMap_cons, List.mem_append, List.mem_map]
+      constructor
+      · rintro ((h1 | ⟨y, hy, rfl⟩) | h1)
+        · exact Or.inl h1
+        · exact Or.inr (Or.inl ⟨y.key, (hkeys _).mp (List.mem_map.mpr ⟨y, hy, rfl⟩), rfl⟩)
+        · exact Or.inr (Or.inr h1)
+      · rintro (h1 | ⟨a, ha, rfl⟩ | h1)
+        · exact Or.inl (Or.inl h1)
+        · obtain ⟨y, hy, hyk⟩ := List.mem_map.mp ((hkeys a).mpr ha)
+          exact Or.inl (Or.inr ⟨y, hy, by rw [hyk]⟩)
+        · exact Or.inr h1
+
+
 end SqlLineage.ColumnsExact
